@@ -242,3 +242,34 @@ template <typename T> static void t_dataview()
 VP_ENTRY vp_main_dataview_u8() { t_dataview<uint8_t>(); }
 VP_ENTRY vp_main_dataview_int() { t_dataview<int>(); }
 VP_ENTRY vp_main_dataview_s12() { t_dataview<S12>(); }
+
+#ifdef VP_PATH
+#include <vector>
+// (path engine) FixedArray from / assigned from std::vector and std::array, onto empty and non-empty targets, element types of 4 and 12 bytes
+template <typename T> static void t_fixed_vec()
+{
+  unsigned n = vp_pick(NMAX + 1), how = vp_pick(4), before = vp_pick(3);
+  std::vector<T> src; for (unsigned i = 0; i < n; i++) src.push_back(nd<T>());
+  std::vector<T> save(src);
+  FixedArray<T> *f;
+  if (how == 0) f = new FixedArray<T>(src);
+  else {
+    std::vector<T> old; for (unsigned i = 0; i < before; i++) old.push_back(nd<T>());
+    f = before ? new FixedArray<T>(old) : new FixedArray<T>();
+    if (how == 1) *f = src;                                    // assignment from a vector replaces size and contents
+    else { std::array<T, 2> arr = {nd<T>(), nd<T>()}; *f = arr; save.assign(arr.begin(), arr.end()); n = 2; if (how == 3) { *f = src; save = src; n = (unsigned)src.size(); } }
+  }
+  for (unsigned i = 0; i < src.size(); i++) src[i] = nd<T>();     // the source changes afterwards: the array owns an independent copy
+  vp_assert(f->size() == n && (bool)*f == (n != 0), "FixedArray size follows the last construction / assignment");
+  for (unsigned i = 0; i < n; i++) vp_assert(memcmp(&(*f)[i], &save[i], sizeof(T)) == 0, "FixedArray holds an independent copy of every element of its source");
+  bool threw = false; try { f->at(n); } catch (const std::runtime_error &) { threw = true; }
+  vp_assert(threw, "at(size()) throws");
+  FixedArray<T> g(*f);
+  delete f;
+  for (unsigned i = 0; i < n; i++) vp_assert(memcmp(&g[i], &save[i], sizeof(T)) == 0, "a copy keeps the contents alive after the original is destroyed");
+  vp_reach("end");
+}
+VP_ENTRY vp_main_fixed_vec_int() { t_fixed_vec<int>(); }
+VP_ENTRY vp_main_fixed_vec_s12() { t_fixed_vec<S12>(); }
+VP_ENTRY vp_main_fixed_vec_u8() { t_fixed_vec<uint8_t>(); }
+#endif
